@@ -425,6 +425,24 @@ pub fn mutated_source(r: &mut Rng) -> (String, Vec<&'static str>, Program) {
         p.txs.push(t2);
         kinds.push("second-tx");
     }
+    // type definitions that mention other user-defined types, aliases (and chains of them)
+    if r.chance(1, 3) {
+        kinds.push("nested-types");
+        p.types.push(TypeDef { name: "Outer".into(), record: true, cases: vec![CaseDef { name: "Default".into(), fields: vec![("inner".into(), Ty::Custom("R".into())), ("n".into(), Ty::Int)] }] });
+        if r.chance(1, 2) {
+            p.types.push(TypeDef {
+                name: "W".into(),
+                record: false,
+                cases: vec![CaseDef { name: "Some".into(), fields: vec![("v".into(), Ty::Custom("V".into()))] }, CaseDef { name: "Nothing".into(), fields: vec![] }],
+            });
+        }
+        if r.chance(1, 2) {
+            p.aliases.push(("Al".into(), Ty::Custom("R".into())));
+            if r.chance(1, 2) {
+                p.aliases.push(("Al2".into(), Ty::Custom("Al".into())));
+            }
+        }
+    }
     let rounds = 1 + r.below(2);
     for _ in 0..rounds {
         let ti = if two && r.chance(2, 3) { 1 } else { 0 };
